@@ -12,6 +12,7 @@ import json, os, subprocess, sys
 sys.path.insert(0, os.path.join(os.path.dirname(os.path.abspath(__file__)), "..", "lib"))
 import verif
 from idlpfc_util import *
+from idlpfc_fmt import gen_idl_fmt_case, oracle_idl_fmt
 
 def flip2(rng, b):
     """uncorrectable error of a Hamming 8/4 byte: two bits flipped such that it does not decode"""
@@ -175,6 +176,120 @@ def gen_idl_case(rng, kind):
                     ops.append("idl feed " + hx(rep))
                     ops.append("idl expect dup 1")
         ci = (ci + 1) & 255
+    return ops
+
+def idl_foreign(rng, channel, spa):
+    """a packet a receiver for (channel, spa) must ignore: other channel / other address / not 30,31 / format B /
+    reserved address length / ordinary teletext row"""
+    f = rng.randrange(6)
+    if f == 0:
+        oc = (channel + 1 + rng.randrange(15)) % 16
+        return idl_packet(oc, 2, len(spa), spa, 0x80 | rng.randrange(3), rng.randrange(256), [rng.randrange(256) for _ in range(35 - len(spa))])
+    if f == 1:
+        if spa:
+            o = list(spa); o[rng.randrange(len(o))] ^= 1 + rng.randrange(15)
+        else:
+            o = [1 + rng.randrange(15)]
+        return idl_packet(channel, 6, len(o), o, rng.choice([0, 0x80, 0x81, 1]), rng.randrange(256), [0x31] * (34 - len(o)))
+    if f == 2:
+        return idl_packet(channel, 0, len(spa), spa, 0, 0, [0x31] * (36 - len(spa)), designation=rng.randrange(15))
+    if f == 3:
+        p = idl_packet(channel, 0, len(spa), spa, 0, 0, [0x31] * (36 - len(spa)))
+        p[2] = HAM8[rng.choice([1, 3, 5, 7, 9, 11, 13, 15])]
+        return p
+    if f == 4:
+        p = idl_packet(channel, 0, 0, [], 0, 0, [0x31] * 36)
+        p[3] = HAM8[7 | rng.choice([0, 8])]
+        return p
+    return [HAM8[(channel + 1) % 16], HAM8[rng.randrange(15)]] + [rng.randrange(256) for _ in range(40)]
+
+def gen_idl_ri_case(rng, style):
+    """IDL format A streams of a sender that uses the repeat indicator: message k (continuity index ci0 + k) is sent as
+    an original (RI low nibble 0) and R_k repeats (RI low nibble 1..R_k), bit 7 of RI = "a(nother) repeat follows"
+    (style 'more': set on all but the last transmission; style 'all': set on every transmission of a repeated message).
+    Every transmission independently: received / dropped / bit error(s) in the CRC region / header destroyed (filtered
+    out without trace).  Foreign packets in between.
+
+    The expectation after every feed is the sender-side reading of the property: a message is handed over at most once -
+    by its intact original, or by the intact repeat j+1 that directly follows (among the packets of ours that got through)
+    the corrupt transmission j announcing it; DATA_LOST is set on a delivery iff it does not directly continue the previous
+    delivery or a corrupt transmission that was not repaired by its announced repeat intervened."""
+    channel = rng.randrange(16)
+    spa_len = rng.choice([0, 0, 1, 2, 3, 6])
+    spa = [rng.randrange(16) for _ in range(spa_len)]
+    ops = ["idl new %d %d 0" % (channel, spa_value(spa))]
+    ci0 = rng.choice([0, 1, 0xF0, 0xFE, rng.randrange(256)])
+    n = rng.randrange(10, 36)
+    dummy = rng.choice([0xAA, 0x55, 0x01, rng.randrange(1, 255)])
+    hi = rng.choice([0, 0, 0, 0x10, 0x50])                     # RI bits 4-6 (not interpreted)
+    p_ok, p_drop, p_crc = rng.choice([(0.6, 0.2, 0.17), (0.4, 0.3, 0.25), (0.75, 0.15, 0.08), (0.5, 0.1, 0.38)])
+    last, pending, aw = None, False, None                       # last delivered message, unrepaired damage, awaited repeat number
+    for k in range(n):
+        ci = (ci0 + k) & 255
+        ft = rng.choice([2, 6, 10, 14])
+        ial = spa_len | rng.choice([0, 8])
+        cap = idl_capacity(ft, spa_len)
+        data = fit_data(rng, cap, ci, dummy, not (ft & 8), rng.choice(["runs", "rand", "rand", "zeros"]))
+        if len(data) >= 2:
+            data[0], data[1] = (k * 7 + 1) & 0xFF or 1, 0x40 | (k & 0x3F)      # messages are told apart by their bytes
+            while len(stuff(data, ci, dummy)) > cap:
+                data.pop()
+            if not (ft & 8):
+                while len(stuff(data, ci, dummy)) < cap:
+                    data.append(0x5A)
+        reps = rng.choice([0, 1, 1, 2, 2, 3, 4])
+        for j in range(reps + 1):
+            while rng.random() < 0.2:
+                ops.append("idl feed " + hx(idl_foreign(rng, channel, spa)))
+                ops.append("idl expect foreign 1")
+            more = (j < reps) if style == "more" else (reps > 0)
+            ri = (0x80 if more else 0) | hi | j
+            pkt = idl_packet(channel, ft, ial, spa, ri, ci, data, dummy)
+            assert pkt is not None
+            u = rng.random()
+            if u < p_drop:
+                continue
+            if u < p_drop + p_crc:
+                bad = list(pkt)
+                for _ in range(rng.choice([1, 1, 2, 5])):
+                    bad[rng.randrange(5 + spa_len, 42)] ^= 1 << rng.randrange(8)
+                if bad == pkt or crc_ok(bad, spa_len, ft):
+                    bad = list(pkt); bad[41] ^= 0x10
+                ops.append("idl feed " + hx(bad))
+                ops.append("idl expect ri-crc 0")
+                if more:
+                    aw = (j + 1) & 15
+                else:
+                    aw, pending, last = None, True, None
+                continue
+            if u < p_drop + p_crc + (1.0 - p_ok - p_drop - p_crc):
+                bad = list(pkt)
+                pos = rng.randrange(0, 4 + spa_len)
+                bad[pos] = flip2(rng, bad[pos])
+                ops.append("idl feed " + hx(bad))
+                ops.append("idl expect ri-ham2 0")
+                continue
+            # intact
+            ops.append("idl feed " + hx(pkt))
+            deliver, tag = False, None
+            if aw is not None:
+                if j != aw:
+                    aw, pending, last = None, True, None        # the announced repeat never came
+                    deliver, tag = (j == 0), ("ri-first" if j == 0 else "ri-late")
+                else:
+                    aw = None
+                    if last == k:
+                        deliver, tag = False, "ri-dup-awaited"  # a repeat of the message handed over last
+                    else:
+                        deliver, tag = True, "ri-repaired"
+            else:
+                deliver, tag = (j == 0), ("ri-first" if j == 0 else "ri-dup")
+            if deliver:
+                lost = pending or (last is not None and last + 1 != k)
+                ops.append("idl expect %s 1 cb %d %s" % (tag, (1 if lost else 0) | (ial & 8), hx(data)))
+                last, pending = k, False
+            else:
+                ops.append("idl expect %s 1" % tag)
     return ops
 
 def crc_ok(pkt, spa_len, ft):
@@ -415,14 +530,21 @@ def gen_pfc_case(rng, kind):
 class C15(verif.Spec):
     prop = "C15"
     comp = "idlpfc"
-    lean_modules = ["ZvbiModel.Props.C15", "ZvbiModel.Props.C15Sender"]
+    lean_modules = ["ZvbiModel.Props.C15", "ZvbiModel.Props.C15Sender", "ZvbiModel.Props.C15Repeats",
+                    "ZvbiModel.Props.C15Formats"]
     harness = "idlpfc_harness"
     harness_link_lib = True
     partial_note = ("IDL and PFC: full for the modelled behaviour, end to end for the executable senders. IDL: "
                     "idl_sender_packets_valid (Spec.mkPacket yields Valid packets for all inputs), idl_roundtrip / "
                     "idl_roundtrip_lossy (consecutive continuity indices modulo 256, repeats, damage, drops, foreign packets; "
                     "a loss that shows only as a continuity gap of an exact multiple of 256 messages is not detectable - stated "
-                    "in the spec `want`). PFC: pfc_roundtrip (transmit = encode + paginate + headers), "
+                    "in the spec `want`), idl_loss_flagged_repeats (streams using RI repeats, every fault pattern "
+                    "received/dropped/corrupt per transmission: DATA_LOST on a delivery iff it does not directly continue the "
+                    "previous delivery or an unrepaired corrupt transmission intervened; finding C15-R2: a message whose repeat j "
+                    "arrives corrupt and repeat j+1 intact after the original was delivered is handed over twice, witness "
+                    "idl_duplicate_after_corrupt_repeat_counterexample), idl_unsupported_format_refused / "
+                    "idl_unsupported_format_silent_history (vbi_idl_demux_feed for dx->format B / Datavideo / Audetel / LBRA: "
+                    "state unchanged, no callback, return value characterised, for every history). PFC: pfc_roundtrip (transmit = encode + paginate + headers), "
                     "pfc_delivers_blocks_foreign_traffic / pfc_roundtrip_foreign_traffic (closing headers and foreign rows "
                     "between our pages, transparent packets anywhere). Finding F42 (last rows of a page lost): the full "
                     "statement is false on the current tree; pfc_tail_loss_reads_spliced_stream says what happens instead, "
@@ -436,24 +558,35 @@ class C15(verif.Spec):
                     "four source shape flags); cross-checked: the compiled idl_a_crc_table is compared with the model's "
                     "table and with a Python bit-serial CRC on every run",
                     "translate/gen_tables.py (Hamming 8/4 table)",
-                    "harness/idlpfc_harness.c + lean/Driver/{Idl,Pfc,Idlpfc}.lean (line-protocol correspondence)",
+                    "harness/idlpfc_harness.c + lean/Driver/{Idl,Pfc,Idlpfc}.lean (line-protocol correspondence; `idl newfmt` reaches "
+                    "_vbi_idl_demux_init for the formats the public API has no constructor for, `idl state` prints the struct fields)",
                     "Idl/Spec.lean, Pfc/Spec.lean: my transcription of EN 300 708 (IDL format A 6.5, PFC 4); dummy bytes "
                     "(6.5.7.1) and the unit of the block pointer (3 bytes) are libzvbi's reading, the standard text is not "
                     "available offline",
                     "lib/idlpfc_util.py: Python senders used by the generator and the oracle, compared with the Lean "
                     "senders on every run (extra_checks)"]
     FAULT_TAGS_KNOWN = ("taildrop",)
+    DUP_AWAITED = "idl: ri-dup-awaited: unexpected delivery"
     IDL_KINDS = ["clean", "clean", "loss", "corrupt", "hamming", "repeat", "uninit", "single"]
     PFC_KINDS = ["clean", "clean", "single", "drop", "taildrop", "drophdr", "droppage", "bp2", "pmag2", "shlo2",
                  "shhi2", "hdrlo2", "hdrhi2", "hdrpg2", "sep2", "parallel", "serial"]
 
     def gen_cases(self, rng, tier):
         n_idl, n_pfc, n_rand = (1600, 1360, 300) if tier == "quick" else (16000, 13600, 3000)
+        n_ri = 600 if tier == "quick" else 6000
+        n_fmt = 200 if tier == "quick" else 2000
         cases = [["idl crctab"]]
         for i in range(n_idl):
             cases.append(gen_idl_case(rng, self.IDL_KINDS[i % len(self.IDL_KINDS)]))
         for i in range(n_pfc):
             cases.append(gen_pfc_case(rng, self.PFC_KINDS[i % len(self.PFC_KINDS)]))
+        # IDL streams of a sender using RI repeats, per-transmission fault patterns (own rng stream: the cases above keep their bytes)
+        rng_ri = __import__("random").Random(rng.randrange(1 << 30))
+        for i in range(n_ri):
+            cases.append(gen_idl_ri_case(rng_ri, ("more", "more", "all")[i % 3]))
+        # demultiplexers of the formats idl_demux.c does not implement (B, Datavideo, Audetel, LBRA): refused, no effect
+        for i in range(n_fmt):
+            cases.append(gen_idl_fmt_case(rng_ri))
         # malformed streams (no expectations: correspondence + the generic oracle clauses)
         for i in range(n_rand):
             cases.append(self.gen_malformed(rng))
@@ -526,6 +659,11 @@ class C15(verif.Spec):
         if len(out) != len(case):
             return "output count %d != ops %d" % (len(out), len(case))
         idl_filter = None
+        dup_seen = None
+        if any(l.startswith("idl newfmt") for l in case):
+            w = oracle_idl_fmt(case, out)
+            if w:
+                return w
         for i, (op, o) in enumerate(zip(case, out)):
             w = op.split()
             if len(w) >= 2 and w[1] == "expect":
@@ -537,6 +675,13 @@ class C15(verif.Spec):
                 if o != want:
                     return "idl: crc table differs from the bitwise CRC of x^16+x^9+x^7+x^4+1"
                 continue
+            if w[:2] == ["idl", "newfmt"]:
+                idl_filter = None
+                if len(w) == 5 and o == "ok" and w[2] == "1":
+                    try:
+                        idl_filter = (int(w[3], 0), int(w[4], 0))
+                    except ValueError:
+                        idl_filter = None
             if w[:2] == ["idl", "new"] and len(w) == 5 and o == "ok":
                 try:
                     idl_filter = (int(w[2], 0), int(w[3], 0))
@@ -573,8 +718,14 @@ class C15(verif.Spec):
                     tag, want = e[2], "ok " + " ".join(e[3:])
                     if o != want:
                         d = describe(w[0], want, o)
-                        return "%s: %s: %s" % (w[0], tag, d)
-        return None
+                        what = "%s: %s: %s" % (w[0], tag, d)
+                        if what == self.DUP_AWAITED:
+                            # known finding C15-R2: the intended and the real receiver are in the same state afterwards,
+                            # so the rest of the case is still judged and any other deviation is reported first
+                            dup_seen = what
+                            continue
+                        return what
+        return dup_seen
 
     def signature(self, case, what):
         if what.startswith("idl: after-recover: DATA_LOST flag set without loss"):
